@@ -10,12 +10,17 @@
 //!       2 GuestRegionMmap [guest base, n]     3 GuestMemoryMmap [s1,l1,...]     4 MockMem [s1,l1,...]
 //!       5 AtomicBitmap [byte_size, page_size]  6 GuestAddress []
 //!       7 AtomicBitmap::new(byte_size, page_size) then enlarge(k)  [byte_size, page_size, k]  (byte_size + k < 2^64)
-//!   ty 0..3 = u8 u16 u32 u64;  op codes: see coq/Suite/C07.v.
+//!       8 ByteValued::as_bytes() of an object of type oc living at arena + pre  [pre, oc]
+//!         (oc 0 u8 1 u16 2 u32 3 u64 4 [u8;3] 5 [u8;16] 6 u128)
+//!   ty 0..3 = u8 u16 u32 u64 (ops 65..69 also 4 = [u8;3], 5 = [u8;16]);  op codes: see coq/Suite/C07.v.
+//!   ops 61..64: the four stream entry points with the crate's OWN adapters as the stream, [script] = [kind, dlen, pos]:
+//!       kind 0 &[u8] = data[pos..]  1 &mut [u8] = data[pos..]  2 Vec<u8>  3 Cursor<&[u8]>  4 Cursor<&mut [u8]>
+//!       5 Cursor<Vec<u8>>  6 File of dlen bytes seeked to pos (a Cursor's position is any u64)
 //! A case that does not return within 5 s kills the process (exit 97): the runner reports the last
 //! announced case as a crash.
 use crate::tok::n;
 use crate::{util, Rng, Suite, Tier, Tok};
-use std::io::ErrorKind;
+use std::io::{Cursor, ErrorKind, Seek, SeekFrom};
 use std::num::NonZeroUsize;
 use std::sync::atomic::{AtomicU16, AtomicU32, AtomicU64, AtomicU8, Ordering};
 use std::sync::Once;
@@ -23,7 +28,7 @@ use std::time::Instant;
 use vm_memory::bitmap::{AtomicBitmap, Bitmap, BitmapSlice, RefSlice};
 use vm_memory::volatile_memory::compute_offset;
 use vm_memory::{
-    Address, Bytes, GuestAddress, GuestMemory, GuestMemoryMmap, GuestMemoryRegion, GuestRegionMmap,
+    Address, ByteValued, Bytes, GuestAddress, GuestMemory, GuestMemoryMmap, GuestMemoryRegion, GuestRegionMmap,
     MemoryRegionAddress, MmapRegion, ReadVolatile, VolatileMemory, VolatileMemoryError, VolatileSlice,
     WriteVolatile,
 };
@@ -297,6 +302,144 @@ fn bytes_op<A: Copy, T: Bytes<A>>(t: &T, mk: impl Fn(u64) -> A, op: u64, ty: u64
     }
 }
 
+/// an anonymous file of `size` bytes (0x3c everywhere)
+fn memfile(size: usize) -> std::fs::File {
+    use std::io::Write;
+    use std::os::fd::FromRawFd;
+    // SAFETY: plain syscall; the fresh descriptor is owned by the File
+    let mut f = unsafe {
+        let fd = libc::memfd_create(b"vmh07_file\0".as_ptr() as *const libc::c_char, 0);
+        assert!(fd >= 0, "memfd_create");
+        std::fs::File::from_raw_fd(fd)
+    };
+    f.write_all(&vec![0x3cu8; size]).unwrap();
+    f
+}
+
+/// ops 61..64: the stream entry points of any Bytes<A> implementor with one of the crate's own adapters as the stream
+fn own_stream_op<A: Copy, T: Bytes<A>>(t: &T, addr: A, op: u64, count: usize, k: u64, dlen: usize, pos: u64) -> u64 {
+    let mut data = vec![0x3cu8; dlen];
+    let rd = op == 61 || op == 62;
+    macro_rules! reads {
+        ($s:expr) => {{
+            let mut s = $s;
+            obs(|| if op == 61 { cr(t.read_volatile_from(addr, &mut s, count)) } else { cr(t.read_exact_volatile_from(addr, &mut s, count)) })
+        }};
+    }
+    macro_rules! writes {
+        ($s:expr) => {{
+            let mut s = $s;
+            obs(|| if op == 63 { cr(t.write_volatile_to(addr, &mut s, count)) } else { cr(t.write_all_volatile_to(addr, &mut s, count)) })
+        }};
+    }
+    match (k, rd) {
+        (0, true) => {
+            assert!(pos <= dlen as u64);
+            let s: &[u8] = &data[pos as usize..];
+            reads!(s)
+        }
+        (1, false) => {
+            assert!(pos <= dlen as u64);
+            let s: &mut [u8] = &mut data[pos as usize..];
+            writes!(s)
+        }
+        (2, false) => writes!(data),
+        (3, true) => {
+            let mut c = Cursor::new(&data[..]);
+            c.set_position(pos);
+            reads!(c)
+        }
+        (4, _) => {
+            let mut c = Cursor::new(&mut data[..]);
+            c.set_position(pos);
+            if rd {
+                reads!(c)
+            } else {
+                writes!(c)
+            }
+        }
+        (5, true) => {
+            let mut c = Cursor::new(data);
+            c.set_position(pos);
+            reads!(c)
+        }
+        (6, _) => {
+            assert!(pos <= dlen as u64 + 1);
+            let mut f = memfile(dlen);
+            f.seek(SeekFrom::Start(pos)).unwrap();
+            if rd {
+                reads!(f)
+            } else {
+                writes!(f)
+            }
+        }
+        _ => panic!("endpoint kind not applicable to this operation"),
+    }
+}
+
+/// ops 65..69: typed bulk copies through any VolatileMemory implementor (real memory only)
+fn copy_op<M: VolatileMemory>(m: &M, op: u64, ty: u64, a: usize, b: usize, c: usize) -> u64 {
+    assert!(c as u64 <= SMALL || op == 69);
+    macro_rules! typed {
+        ($T:ty, $z:expr) => {
+            match op {
+                65 => obs(|| match m.get_slice(a, b) {
+                    Ok(s) => {
+                        let mut buf: Vec<$T> = vec![$z; c];
+                        let _ = s.copy_to::<$T>(&mut buf[..]);
+                        0
+                    }
+                    Err(_) => 1,
+                }),
+                66 => obs(|| match m.get_slice(a, b) {
+                    Ok(s) => {
+                        let buf: Vec<$T> = vec![$z; c];
+                        s.copy_from::<$T>(&buf[..]);
+                        0
+                    }
+                    Err(_) => 1,
+                }),
+                67 => obs(|| match m.get_array_ref::<$T>(a, b) {
+                    Ok(arr) => {
+                        let mut buf: Vec<$T> = vec![$z; c];
+                        let _ = arr.copy_to(&mut buf[..]);
+                        0
+                    }
+                    Err(_) => 1,
+                }),
+                68 => obs(|| match m.get_array_ref::<$T>(a, b) {
+                    Ok(arr) => {
+                        let buf: Vec<$T> = vec![$z; c];
+                        arr.copy_from(&buf[..]);
+                        0
+                    }
+                    Err(_) => 1,
+                }),
+                69 => obs(|| match m.get_array_ref::<$T>(a, b) {
+                    Ok(arr) => match m.get_slice(c, m.len().saturating_sub(c)) {
+                        Ok(d) => {
+                            arr.copy_to_volatile_slice(d);
+                            0
+                        }
+                        Err(_) => 1,
+                    },
+                    Err(_) => 1,
+                }),
+                _ => panic!("bad copy op"),
+            }
+        };
+    }
+    match ty {
+        0 => typed!(u8, 0u8),
+        1 => typed!(u16, 0u16),
+        2 => typed!(u32, 0u32),
+        3 => typed!(u64, 0u64),
+        4 => typed!([u8; 3], [0u8; 3]),
+        5 => typed!([u8; 16], [0u8; 16]),
+        _ => panic!("bad element type"),
+    }
+}
+
 fn slice_op(vs: &VolatileSlice<()>, real: bool, op: u64, ty: u64, a: u64, b: u64, c: u64, script: &[u128]) -> u64 {
     let (ua, ub, uc) = (a as usize, b as usize, c as usize);
     match op {
@@ -307,6 +450,8 @@ fn slice_op(vs: &VolatileSlice<()>, real: bool, op: u64, ty: u64, a: u64, b: u64
         0 | 4..=9 => vm_op(vs, op, ty, ua, ub, uc),
         11 | 12 if real => vm_op(vs, op, ty, ua, ub, uc),
         13..=24 if real => bytes_op(vs, |x| x as usize, op, ty, a, ub, uc, script),
+        61..=64 if real => own_stream_op(vs, ua, op, ub, script[0] as u64, script[1] as usize, script[2] as u64),
+        65..=69 if real => copy_op(vs, op, ty, ua, ub, uc),
         _ => panic!("op not applicable to this slice"),
     }
 }
@@ -319,6 +464,11 @@ fn region_op(r: &GuestRegionMmap<()>, op: u64, ty: u64, a: u64, b: u64, c: u64, 
             vm_op(mr, op, ty, ua, ub, uc)
         }
         13..=24 => bytes_op(r, MemoryRegionAddress, op, ty, a, ub, uc, script),
+        61..=64 => own_stream_op(r, MemoryRegionAddress(a), op, ub, script[0] as u64, script[1] as usize, script[2] as u64),
+        65..=69 => {
+            let mr: &MmapRegion<()> = r;
+            copy_op(mr, op, ty, ua, ub, uc)
+        }
         30 => obs(|| co(r.check_address(MemoryRegionAddress(a)))),
         31 => obs(|| {
             let _ = r.address_in_range(MemoryRegionAddress(a));
@@ -342,6 +492,7 @@ fn guest_op<M: GuestMemory>(m: &M, op: u64, ty: u64, a: u64, b: u64, c: u64, scr
     let ga = GuestAddress(a);
     match op {
         13..=24 => bytes_op(m, GuestAddress, op, ty, a, ub, uc, script),
+        61..=64 => own_stream_op(m, ga, op, ub, script[0] as u64, script[1] as usize, script[2] as u64),
         40 => obs(|| {
             let _ = m.address_in_range(ga);
             0
@@ -365,9 +516,36 @@ fn guest_op<M: GuestMemory>(m: &M, op: u64, ty: u64, a: u64, b: u64, c: u64, scr
     }
 }
 
-fn bitmap_op(bm: &AtomicBitmap, op: u64, a: usize, b: usize, c: usize) -> u64 {
+fn bitmap_op(bm: AtomicBitmap, op: u64, a: usize, b: usize, c: usize) -> u64 {
+    if (72..=76).contains(&op) {
+        // impl Bitmap for Option<B>
+        let ob: Option<AtomicBitmap> = if op == 76 { None } else { Some(bm) };
+        return obs(|| {
+            match op {
+                72 => ob.mark_dirty(a, b),
+                73 => {
+                    let _ = ob.dirty_at(a);
+                }
+                74 => ob.slice_at(c).mark_dirty(a, b),
+                75 => {
+                    let _ = ob.slice_at(c).dirty_at(a);
+                }
+                _ => {
+                    ob.mark_dirty(a, b);
+                    let _ = ob.dirty_at(a);
+                    ob.slice_at(c).mark_dirty(a, b);
+                }
+            };
+            0
+        });
+    }
+    let bm = &bm;
     obs(|| {
         match op {
+            70 => RefSlice::new(bm, c).slice_at(a).slice_at(b).mark_dirty(a, b),
+            71 => {
+                let _ = RefSlice::new(bm, c).slice_at(a).slice_at(b).dirty_at(b);
+            }
             50 => bm.set_addr_range(a, b),
             51 => bm.reset_addr_range(a, b),
             52 => bm.set_bit(a),
@@ -408,13 +586,20 @@ fn exec_inner(case: &[Tok]) -> u64 {
     let (op, ty, a, b, c) = (case[3].u(), case[4].u(), case[5].u(), case[6].u(), case[7].u());
     let script = case[8].l();
     // the same size limits as small07 in coq/Suite/C07.v: a candidate beyond them is not a case
-    assert!(par.len() <= 16 && script.len() <= 64 && ty <= 3);
+    assert!(par.len() <= 16 && script.len() <= 64 && ty <= 5);
     if (13..=16).contains(&op) {
         assert!(b <= SMALL);
     }
     if (21..=24).contains(&op) {
         assert!(c <= SMALL);
     }
+    if (61..=64).contains(&op) {
+        assert!(script.len() == 3 && script[1] <= SMALL as u128 && script[2] <= u64::MAX as u128);
+    }
+    if (65..=68).contains(&op) {
+        assert!(c <= SMALL);
+    }
+    assert!(ty <= 3 || ((65..=69).contains(&op) && ty <= 5));
     match tgt {
         0 => {
             let (pre, len) = (par[0] as u64, par[1] as u64);
@@ -454,7 +639,7 @@ fn exec_inner(case: &[Tok]) -> u64 {
             let (bs, ps) = (par[0] as u64, par[1] as u64);
             assert!(par.len() == 2 && ps >= 1 && (bs as u128).div_ceil(ps as u128) <= 4096);
             let bm = AtomicBitmap::new(bs as usize, NonZeroUsize::new(ps as usize).unwrap());
-            bitmap_op(&bm, op, a as usize, b as usize, c as usize)
+            bitmap_op(bm, op, a as usize, b as usize, c as usize)
         }
         7 => {
             let (bs, ps, k) = (par[0] as u64, par[1] as u64, par[2] as u64);
@@ -467,13 +652,38 @@ fn exec_inner(case: &[Tok]) -> u64 {
                 bm
             });
             match made {
-                Some(bm) => bitmap_op(&bm, op, a as usize, b as usize, c as usize),
+                Some(bm) => bitmap_op(bm, op, a as usize, b as usize, c as usize),
                 None => 2,
             }
         }
         6 => {
             assert!(op == 60);
             obs(|| co(GuestAddress(a).checked_align_up(b)))
+        }
+        8 => {
+            let (pre, oc) = (par[0] as u64, par[1] as u64);
+            assert!(par.len() == 2 && pre <= 4080 && (op <= 20 || (65..=69).contains(&op)));
+            let base = arena();
+            macro_rules! object {
+                ($T:ty) => {{
+                    assert!(pre as usize % std::mem::align_of::<$T>() == 0);
+                    // SAFETY: arena + pre .. + size_of::<T>() lies inside the arena's two read/write pages, is aligned
+                    // for T, and nothing else refers to it during the call
+                    let obj: &mut $T = unsafe { &mut *(base.add(pre as usize) as *mut $T) };
+                    let vs = obj.as_bytes();
+                    slice_op(&vs, true, op, ty, a, b, c, script)
+                }};
+            }
+            match oc {
+                0 => object!(u8),
+                1 => object!(u16),
+                2 => object!(u32),
+                3 => object!(u64),
+                4 => object!([u8; 3]),
+                5 => object!([u8; 16]),
+                6 => object!(u128),
+                _ => panic!("bad object type"),
+            }
         }
         _ => panic!("bad target"),
     }
@@ -620,6 +830,75 @@ fn gen_bytes(g: &mut G, tgt: u64, par: &[u64], addrs: &[u64], len: u64, streams:
     }
 }
 
+/// ops 61..64 with every adapter of the crate as the stream; positions 0, mid, len, len+1, 2^63, u64::MAX (cursors)
+fn gen_own(g: &mut G, tgt: u64, par: &[u64], addrs: &[u64], len: u64) {
+    let counts = [0u64, 1, 8, len, len.wrapping_add(1), SMALL, 1 << 63, TOP];
+    for op in 61..=64u64 {
+        let kinds: &[u64] = if op <= 62 { &[0, 3, 4, 5, 6] } else { &[1, 2, 4, 6] };
+        for &k in kinds {
+            for &dlen in &[0u64, 5, 64] {
+                let mut poss: Vec<u64> = vec![0, dlen / 2, dlen];
+                if k >= 3 {
+                    poss.push(dlen + 1);
+                }
+                if (3..=5).contains(&k) {
+                    poss.extend([1 << 63, TOP, TOP - dlen, (1 << 32) + 1]);
+                }
+                poss.sort();
+                poss.dedup();
+                for &pos in &poss {
+                    let x = [k as u128, dlen as u128, pos as u128];
+                    let past = pos > dlen;
+                    for &a in addrs {
+                        for &b in &counts {
+                            // the seeded class (a stream positioned past its end) is never thinned out on the first address
+                            if past && a == addrs[0] && (b == 0 || b == 1 || b == 8 || b == TOP) {
+                                g.put(tgt, par, op, 0, a, b, 0, &x);
+                            } else {
+                                g.bulk(tgt, par, op, 0, a, b, 0, &x);
+                            }
+                        }
+                    }
+                }
+            }
+        }
+    }
+}
+
+/// ops 65..69 on a container of `len` bytes: element types incl. [u8;3] and [u8;16], huge element counts
+fn gen_copy(g: &mut G, tgt: u64, par: &[u64], len: u64) {
+    let offs = [0u64, 1, 3, len / 2, len.wrapping_sub(1), len, len.wrapping_add(1), 1 << 63, TOP];
+    for ty in 0..=5u64 {
+        let sz = [1u64, 2, 4, 8, 3, 16][ty as usize];
+        let bufs = [0u64, 1, 2, len / sz, (len / sz + 1).min(SMALL), 64];
+        for op in [65u64, 66] {
+            for &a in &offs {
+                for &b in &[0u64, 1, sz - 1, sz, sz + 1, 2 * sz + 1, len / 2, len.wrapping_sub(a), len.wrapping_sub(a).wrapping_add(1), len, TOP, TOP - a] {
+                    for &c in &bufs {
+                        g.bulk(tgt, par, op, ty, a, b, c, &[]);
+                    }
+                }
+            }
+            // whole container, sizes that do not divide it
+            g.put(tgt, par, op, ty, 0, len, (len / sz + 1).min(SMALL), &[]);
+            g.put(tgt, par, op, ty, 0, len, 1, &[]);
+        }
+        for op in [67u64, 68, 69] {
+            let ns = [0u64, 1, 2, len / sz, len / sz + 1, (isize::MAX as u64) / sz, (isize::MAX as u64) / sz + 1, TOP / sz, (TOP / sz).wrapping_add(1), isize::MAX as u64, 1 << 63, TOP];
+            for &a in &offs {
+                for &b in &ns {
+                    let cs: &[u64] = if op == 69 { &[0, 1, len / 2, len, len + 1, 1 << 63, TOP] } else { &bufs };
+                    for &c in cs {
+                        g.bulk(tgt, par, op, ty, a, b, c, &[]);
+                    }
+                }
+            }
+            g.put(tgt, par, op, ty, 0, len / sz, if op == 69 { 0 } else { (len / sz + 1).min(SMALL) }, &[]);
+            g.put(tgt, par, op, ty, 0, TOP, 1, &[]);
+        }
+    }
+}
+
 fn gen(rng: &mut Rng, tier: Tier, emit: &mut dyn FnMut(Vec<Tok>)) {
     let quick = tier == Tier::Quick;
     let mut g = G { mode: crate::build_mode(), emit, keep: if quick { 24 } else { 2 }, ctr: 0 };
@@ -631,6 +910,24 @@ fn gen(rng: &mut Rng, tier: Tier, emit: &mut dyn FnMut(Vec<Tok>)) {
         let all: Vec<u64> = (0..=12).collect();
         gen_geom(&mut g, 0, &par, len, hb + pre, &all);
         gen_bytes(&mut g, 0, &par, &bset(len, hb + pre), len, true);
+        gen_copy(&mut g, 0, &par, len);
+    }
+    for &(pre, len) in &[(0u64, 0u64), (3, 61), (4088, 8), (0, 4096)] {
+        gen_own(&mut g, 0, &[pre, len], &[0, 1, len / 2, len.wrapping_sub(1), len, len + 1, 1 << 63, TOP], len);
+    }
+    // (a'') the VolatileSlice ByteValued::as_bytes() gives over an object of every type, then every accessor
+    for oc in 0..=6u64 {
+        let (sz, al) = [(1u64, 1u64), (2, 2), (4, 4), (8, 8), (3, 1), (16, 1), (16, 16)][oc as usize];
+        for &pre in &[0u64, 16, 4080, 3] {
+            if pre % al != 0 {
+                continue;
+            }
+            let par = [pre, oc];
+            let all: Vec<u64> = (0..=12).collect();
+            gen_geom(&mut g, 8, &par, sz, hb + pre, &all);
+            gen_bytes(&mut g, 8, &par, &bset(sz, hb + pre), sz, false);
+            gen_copy(&mut g, 8, &par, sz);
+        }
     }
     // (a') fake ranges near the top of the host address space, around 2^63, and tiny
     for &(addr, len) in &[(TOP - 8, 8u64), (TOP - 16, 9), (TOP - 4096, 4095), (1u64 << 63, 1 << 62), ((1 << 63) - 4, 8), (1, isize::MAX as u64), (4096, 0), (TOP, 0), (1 << 40, 1 << 40)] {
@@ -658,6 +955,8 @@ fn gen(rng: &mut Rng, tier: Tier, emit: &mut dyn FnMut(Vec<Tok>)) {
         }
         g.bulk(2, &par, 36, 0, 0, 0, 0, &[]);
         g.bulk(2, &par, 37, 0, 0, 0, 0, &[]);
+        gen_copy(&mut g, 2, &par, len);
+        gen_own(&mut g, 2, &par, &[0, 1, len - 1, len, len + 1, 1 << 63, TOP], len);
     }
     // (c) GuestMemoryMmap and (e) MockMem layouts: region at 0, adjacent regions, a region whose last
     // byte is 2^64-2 (mmap) / 2^64-1 (mock), regions around 2^63 and 2^32, unsorted mock collections
@@ -708,6 +1007,13 @@ fn gen(rng: &mut Rng, tier: Tier, emit: &mut dyn FnMut(Vec<Tok>)) {
             }
             g.bulk(tgt, par, 47, 0, 0, 0, 0, &[]);
             gen_bytes(&mut g, tgt, par, &addrs, 16, tgt == 3);
+            if tgt == 3 {
+                // the crate's own adapters as the stream: around the first region, across adjacent regions, at the top
+                let last = par.len() - 2;
+                let own_addrs = [par[0], par[0].wrapping_add(1), par[0].wrapping_add(par[1]).wrapping_sub(1), par[0].wrapping_add(par[1]),
+                    par[last], par[last].wrapping_add(par[last + 1]).wrapping_sub(1), TOP, 1 << 63];
+                gen_own(&mut g, tgt, par, &own_addrs, par[1]);
+            }
         }
     }
     // (d) AtomicBitmap / BaseSlice: page sizes 1 and 4096 (and odd ones), huge ranges.  With page size 1
@@ -715,10 +1021,19 @@ fn gen(rng: &mut Rng, tier: Tier, emit: &mut dyn FnMut(Vec<Tok>)) {
     for &(bsz, ps) in &[(0u64, 1u64), (1, 1), (64, 1), (65, 1), (4096, 1), (4096, 4096), (4097, 4096), (1 << 20, 4096), (10, 3), (1 << 24, 4096), (TOP, 1 << 52), (TOP, TOP), (1 << 63, 1 << 51)] {
         let par = [bsz, ps];
         let pages = ((bsz as u128 + ps as u128 - 1) / ps as u128) as u64;
-        for op in [50u64, 51, 56] {
+        for op in [50u64, 51, 56, 70, 72, 74, 76] {
             for &(a, b) in &[(0u64, TOP), (0, 0), (TOP, TOP), (1, TOP - 1), (TOP, 0), (0, 1), (bsz, TOP), (0, bsz)] {
                 g.put(5, &par, op, 0, a, b, 0, &[]);
+                if op >= 70 {
+                    g.put(5, &par, op, 0, a, b, TOP, &[]);
+                    g.put(5, &par, op, 0, a, b, 0u64.wrapping_sub(a), &[]);
+                }
             }
+        }
+        // the bit and address primitives at usize::MAX
+        for op in [52u64, 53, 54, 55, 71, 73, 75] {
+            g.put(5, &par, op, 0, TOP, TOP, TOP, &[]);
+            g.put(5, &par, op, 0, TOP, 0, 1, &[]);
         }
         let mut av = bset(bsz, 0);
         av.extend([pages.wrapping_sub(1), pages, pages + 1, pages.wrapping_mul(ps), pages.wrapping_mul(ps).wrapping_sub(1), 63, 64, 65]);
@@ -735,7 +1050,12 @@ fn gen(rng: &mut Rng, tier: Tier, emit: &mut dyn FnMut(Vec<Tok>)) {
                 for &c in &[0u64, 1, ps, TOP, 0u64.wrapping_sub(a), 0u64.wrapping_sub(a).wrapping_add(1), 1 << 63] {
                     g.bulk(5, &par, 56, 0, a, b, c, &[]);
                     g.bulk(5, &par, 58, 0, a, b, c, &[]);
+                    for op in [70u64, 71, 74, 75, 76] {
+                        g.bulk(5, &par, op, 0, a, b, c, &[]);
+                    }
                 }
+                g.bulk(5, &par, 72, 0, a, b, 0, &[]);
+                g.bulk(5, &par, 73, 0, a, b, 0, &[]);
             }
             for &c in &[0u64, 1, ps, TOP, 0u64.wrapping_sub(a), 1 << 63] {
                 g.bulk(5, &par, 57, 0, a, 0, c, &[]);
@@ -777,6 +1097,10 @@ fn gen(rng: &mut Rng, tier: Tier, emit: &mut dyn FnMut(Vec<Tok>)) {
                         g.put(7, &par, 55, 0, total.wrapping_sub(1), 0, 0, &[]);
                         g.put(7, &par, 57, 0, total.wrapping_sub(1), 0, 0, &[]);
                         g.bulk(7, &par, 58, 0, lastp.wrapping_mul(ps), 0, 0, &[]);
+                        for op in [70u64, 72, 74] {
+                            g.bulk(7, &par, op, 0, total.wrapping_sub(1), 1, 0, &[]);
+                            g.bulk(7, &par, op, 0, 0, TOP, 0, &[]);
+                        }
                         for op in [50u64, 51, 56] {
                             g.put(7, &par, op, 0, total.wrapping_sub(1), 1, 0, &[]);
                             g.put(7, &par, op, 0, 0, TOP, 0, &[]);
@@ -821,7 +1145,7 @@ fn gen(rng: &mut Rng, tier: Tier, emit: &mut dyn FnMut(Vec<Tok>)) {
                 let bsz = rng.below(total + 1);
                 let par = [bsz, ps, total - bsz];
                 let pages = (total + ps - 1) / ps;
-                let op = 50 + rng.below(9);
+                let op = *rng.pick(&[50u64, 51, 52, 53, 54, 55, 56, 57, 58, 70, 71, 72, 73, 74, 75, 76]);
                 let a = match rng.below(4) {
                     0 => pages.wrapping_sub(1),
                     1 => total.wrapping_sub(rng.below(3)),
@@ -876,7 +1200,7 @@ fn gen(rng: &mut Rng, tier: Tier, emit: &mut dyn FnMut(Vec<Tok>)) {
             }
             _ => {
                 let par = *rng.pick(&[[1000u64, 1], [1 << 20, 4096], [100, 7]]);
-                let op = 50 + rng.below(9);
+                let op = *rng.pick(&[50u64, 51, 52, 53, 54, 55, 56, 57, 58, 70, 71, 72, 73, 74, 75, 76]);
                 g.put(5, &par, op, 0, pick(rng, par[0], 0), pick(rng, par[0], 0), pick(rng, par[0], 0), &[]);
             }
         }
